@@ -392,6 +392,8 @@ def gen_malformed(rng):
     elif fault == 'xyz_count':
         mn = rng.choice('xyz')
         prm = [dy(rng) for _ in range(rng.choice([0, 1, 3, 5, 6, 8]))]
+        if len(prm) >= 3 and rng.random() < 0.5:
+            prm[2] = prm[0]        # looks like the plane form, wrong count
     elif fault == 'sheet':
         mn, prm = gen_card(rng, rng.choice(['kx1', 'ky1', 'kz1', 'k/x1',
                                             'k/y1', 'k/z1']))
@@ -713,6 +715,10 @@ CORPUS = [
     ('gq', [-1.0, -1.0, -1.0, 0.0, 0.0, 0.0, 0.0, 0.0, 0.0, 1.0]),
     ('sq', [1.0, -2.0, 0.5, 0.25, 0.5, -1.0, 3.0, 1.0, -2.0, 0.5]),
     ('gq', [1.0, 2.0, 3.0, 0.5, -0.25, 0.75, -4.0, 1.0, -2.0, -3.0]),
+    ('gq', [-1.0, 2.0, 3.0, 0.5, -0.25, 0.75, -4.0, 1.0, -2.0, 3.0]),   # leading coefficient < 0
+    ('gq', [0.0, 0.0, -1.0, 0.0, 0.0, 0.0, 2.0, 0.0, 0.0, 1.0]),
+    ('z', [2.0, 0.5, 2.0, 1.5, 4.0, 3.0]),      # three pairs: NotImplementedError
+    ('x', [1.0, 2.0, 1.0, 3.0, 4.0]),           # surplus entry: NotImplementedError
 ]
 
 
